@@ -25,10 +25,22 @@ def frames(tn, trefs, inst=None):
 
 def refs_out(df): return ["ok", sorted([int(a), int(b), int(c)] for a, b, c in zip(df["Src"], df["Trg"], df["ReferenceType"]))]
 
-def impl_types(kind, types, tn, trefs):
+def edit_in_place(df, before, after):
+    """cell assignments on the same DataFrame object: same shape, other content"""
+    for i, (r0, r1) in enumerate(zip(before, after)):
+        for c, col in enumerate(("Src", "Trg", "ReferenceType")):
+            if r0[c] != r1[c]: df.iloc[i, df.columns.get_loc(col)] = r1[c]
+
+def impl_types(kind, types, tn, trefs, before=None):
+    """before: type references of the same length; the tables first hold `before` and are queried once, the reference table is then edited in
+    place to hold trefs and queried again: the answer must be the one for the tables' current content"""
     from opcua_tools import navigation as nav
     try:
-        type_nodes, type_refs, _ = frames(tn, trefs)
+        type_nodes, type_refs, _ = frames(tn, trefs if before is None else before)
+        if before is not None:
+            try: nav.subtypes_of_nodes(list(types), type_nodes, type_refs)
+            except BaseException: pass
+            edit_in_place(type_refs, before, trefs)
         if kind == "subtypes":
             df = nav.subtypes_of_nodes(list(types), type_nodes, type_refs); return ["ok", sorted([int(a), int(b)] for a, b in zip(df["type"], df["subtype"]))]
         df = nav.supertypes_of_nodes(list(types), type_nodes, type_refs); return ["ok", sorted([int(a), int(b)] for a, b in zip(df["supertype"], df["type"]))]
@@ -36,10 +48,14 @@ def impl_types(kind, types, tn, trefs):
 
 SELECTORS = {"HierarchicalReferences": "hierarchical_references", "NonHierarchicalReferences": "non_hierarchical_references",
              "HasProperty": "has_property_references", "HasModellingRule": "has_modelling_rule_references"}
-def impl_select(name, inst, tn, trefs):
+def impl_select(name, inst, tn, trefs, before=None):
     from opcua_tools import navigation as nav
     try:
-        type_nodes, type_refs, inst_refs = frames(tn, trefs, inst)
+        type_nodes, type_refs, inst_refs = frames(tn, trefs if before is None else before, inst)
+        if before is not None and name != "HasTypeDefinition":
+            try: getattr(nav, SELECTORS[name])(inst_references=inst_refs, type_references=type_refs, type_nodes=type_nodes)
+            except BaseException: pass
+            edit_in_place(type_refs, before, trefs)
         if name == "HasTypeDefinition": return refs_out(nav.has_type_definition_references(inst_refs, type_nodes))
         return refs_out(getattr(nav, SELECTORS[name])(inst_references=inst_refs, type_references=type_refs, type_nodes=type_nodes))
     except BaseException as e: return canon_err(e)
@@ -143,9 +159,11 @@ def judge(kind, p):
         spec = ["ok", spec_cycles(p)]
         if out != spec: fails.append(("C12/cycles", "circular nodes %r, cycles are %r" % (out, spec)))
         return out, bool(spec[1]), ["cycle" if spec[1] else "acyclic"], fails
-    if kind in ("subtypes", "supertypes"):
+    if kind in ("subtypes", "supertypes", "subtypes-inplace", "supertypes-inplace"):
+        before = None
+        if kind.endswith("-inplace"): before, p, kind = p[0], p[1:], kind[:-len("-inplace")]
         q, tn, trefs = p
-        out = impl_types(kind, q, tn, trefs)
+        out = impl_types(kind, q, tn, trefs, before)
         hst = type_id(tn, "HasSubtype")
         nontriv = hst is not None and any(len(spec_subtypes(t, hst, trefs)) > 1 for t in q)
         if hst is not None and not hst_selfloop(tn, trefs):
@@ -162,9 +180,10 @@ def judge(kind, p):
                 else:
                     fails.append(("C12/" + kind, "%s %r, expected %r" % (kind, out, spec)))
         return out, nontriv, [], fails
-    if kind in ("constrain", "select", "htd"):
+    if kind in ("constrain", "select", "htd", "select-inplace"):
         if kind == "constrain": inst, q, tn, trefs = p; out = impl_constrain(inst, q, tn, trefs); types = q
         elif kind == "select": nm, inst, tn, trefs = p; out = impl_select(nm, inst, tn, trefs); types = [type_id(tn, nm)]
+        elif kind == "select-inplace": before, nm, inst, tn, trefs = p; out = impl_select(nm, inst, tn, trefs, before); types = [type_id(tn, nm)]
         else: inst, tn, trefs = p; out = impl_select("HasTypeDefinition", inst, tn, trefs); types = [type_id(tn, "HasTypeDefinition")]
         hst = type_id(tn, "HasSubtype")
         nontriv = hst is not None and types[0] is not None and any(len(spec_subtypes(t, hst, trefs)) > 1 for t in types)
@@ -320,6 +339,15 @@ def check(ctx):
         for nm in ["HierarchicalReferences", "NonHierarchicalReferences", "HasProperty", "HasModellingRule"]:
             reqs.append([Sym("c12_select"), nm, inst, tn, trefs]); meta.append(("select", (nm, inst, tn, trefs), []))
         reqs.append([Sym("c12_htd"), inst, tn]); meta.append(("htd", (inst, tn, trefs), []))
+        # the same table objects, the hierarchy edited in place between two queries (one subtype reference re-parented: same shape, other content)
+        hs = [i for i, r in enumerate(trefs) if r[2] == ids.get("HasSubtype", 999)]
+        if hs and len(tids) >= 3:
+            i = rng.choice(hs); trefs2 = [list(r) for r in trefs]
+            trefs2[i][0] = rng.choice([t for t in tids if t not in (trefs[i][0], trefs[i][1])])
+            reqs.append([Sym("c12_subtypes"), q, tn, trefs2]); meta.append(("subtypes-inplace", (trefs, q, tn, trefs2), ["edited-in-place"]))
+            reqs.append([Sym("c12_supertypes"), q, tn, trefs2]); meta.append(("supertypes-inplace", (trefs, q, tn, trefs2), ["edited-in-place"]))
+            nm = rng.choice(["HierarchicalReferences", "NonHierarchicalReferences", "HasProperty"])
+            reqs.append([Sym("c12_select"), nm, inst, tn, trefs2]); meta.append(("select-inplace", (trefs, nm, inst, tn, trefs2), ["edited-in-place"]))
         reqs.append([Sym("c12_has_mr"), inst, tn, trefs]); meta.append(("mr-has", (inst, tn, trefs), []))
         reqs.append([Sym("c12_no_mr"), "HierarchicalReferences", inst, tn, trefs]); meta.append(("mr-no-h", (inst, tn, trefs), []))
         reqs.append([Sym("c12_no_mr"), "NonHierarchicalReferences", inst, tn, trefs]); meta.append(("mr-no-n", (inst, tn, trefs), []))
